@@ -206,6 +206,12 @@ func runCase(run *evid.Run, idx int) caseOut {
 		c.lvKey[i] = []string{"url", "url", "global"}[r.Intn(3)]
 	}
 	c.files = []string{"a.dat", "b.dat", "sub/c.dat", "n.txt", "m.txt", "x.bin", "plain.md"}
+	if c.flavor == "plain" && idx%8 == 0 {
+		// listing faults on a push: 3 of 40 cases with a paginated server and verification enabled for both users
+		c.vfault = true
+		c.page = 1 + r.Intn(2)
+		c.lv[0], c.lv[1] = "true", "true"
+	}
 	if c.flavor == "plain" && idx%8 == 4 {
 		c.twoClones = true // 3 of 40 cases
 	}
@@ -313,6 +319,9 @@ func runCase(run *evid.Run, idx int) caseOut {
 	if c.twoClones {
 		fl += "+second-clone"
 	}
+	if c.vfault {
+		fl += "+listing-fault"
+	}
 	class := fmt.Sprintf("%s/lv=%s,%s/ro=%s/page=%d/len=%s", c.flavor, c.lv[0], c.lv[1], map[bool]string{true: "on", false: "off"}[c.readonly], c.page, lenBucket(c.seqLen))
 	class = strings.Replace(class, c.flavor+"/", fl+"/", 1)
 	c.setup()
@@ -404,12 +413,12 @@ func (c *cse) count(name string, n int64) {
 func main() {
 	run := evid.New("C16", "exploration")
 	defer sbx.RemoveBase()
-	run.Rule = "seeded sequences (length uniform in 1..30, a scripted 3-5 command opening in 3 of 5 cases) over {lock p, unlock p, unlock --id, unlock --force [p|--id], locks [--path P|--id ID|--limit N][--json], locks --verify [--limit N|--path P|--id ID][--json], locks --local [--path|--id|--limit N][--json], locks [--verify] --cached [--json] (+ the refused combinations --cached with --limit/--path/--id) with N from {1, 2, locks-1, locks, more} against page sizes {0,1,2} (page <, =, > N), checkout <branch>, checkout HEAD -- <files>, edit(+add), commit, merge/pull, push [one|both branches]} executed by two users (user switches with p=0.4 per step) on two clones of one bare remote against one fake LFS server; paths: lockable LFS (*.dat), lockable non-LFS (*.txt), non-lockable LFS (*.bin), plain, plus lockable files that exist on one branch only (only-main.dat/.txt, only-side.dat) and files removed from the work tree without committing (rm), so that lock/unlock (by path, --id, --force) also hit files ABSENT from the work tree, followed by the checkout/merge that brings them back; coordinates per case: second-clone (3 of 40 cases: a second clone of one user, same server identity, own work tree and lock cache; locks taken in one clone, unlock --id / unlock <path> / locks --verify issued from the other; the expected cache is kept per CLONE: a clone only knows what its own commands were told); every case may also `lose the lock cache` (rm .git/lfs/lockcache.db [+ lfs/cache/locks]) between commands, which resets that clone's expected cache to empty; dense (4 of 40 cases: 10-40 extra lockable files; the other user rewrites many of them and pushes, this user removes one or two others from the work tree WITHOUT committing, then pull/merge and `git checkout HEAD -- <files>` run the repository-scanning hooks while tracked lockable files are missing; every lockable file the command rewrote is judged, trigger hook-with-missing-lockable-file); flavor {overlap (1 case in 8: after a few ordinary commands two git-lfs processes of the same user overlap deterministically in one clone — the server hook computes/applies the request of process A, holds its response, process B runs to completion, A is released — in the shapes verify+lock, lock+verify, unlock+verify, lock+lock|unlock; expected cache = both effects = server's own-lock table), plain, verify5xx (one 5xx on a verifiable listing = the single known trigger), verify-unimpl (404/501 on locks/verify), locks-unimpl (404/501 on every lock endpoint), odd-path (two extra lockable files whose name contains a space, a double quote, non-ASCII letters or a tab), subdir-cwd (lock/unlock of sub/… issued from inside sub/), dup-content (edits may copy another file's content)}; in every 4th case the pushes run the race-instrumented binary and data-race reports touching commands.lockVerifier count as violations x locksverify(alice,bob) in {unset,true,false} via lfs.<url>.locksverify or lfs.locksverify x lfs.setlockablereadonly {unset,true,false} x server page size {0,1,2}; other answers arise from the sequence (409 on a held path, 403 on a foreign unlock, 404 on a stale id) or from scripted 500/502/503 on lock create/delete/list. Class = (flavor, locksverify pair, readonly on/off, page size, length bucket). Oracles after every command: push verdict, write bits of the files whose flags the command fixes, `locks --local --json` (ids and paths) of the acting user == sequence-defined expected cache (the other user's cache is compared at every change of the acting user and at the end of the sequence), `locks [--verify] --cached --json` == last unambiguous remote listing, unlock guard, no Go panic; in verify5xx cases the fault hits either the first verify request or (paginated server) every page after the first."
+	run.Rule = "seeded sequences (length uniform in 1..30, a scripted 3-5 command opening in 3 of 5 cases) over {lock p, unlock p, unlock --id, unlock --force [p|--id], locks [--path P|--id ID|--limit N][--json], locks --verify [--limit N|--path P|--id ID][--json], locks --local [--path|--id|--limit N][--json], locks [--verify] --cached [--json] (+ the refused combinations --cached with --limit/--path/--id) with N from {1, 2, locks-1, locks, more} against page sizes {0,1,2} (page <, =, > N), checkout <branch>, checkout HEAD -- <files>, edit(+add), commit, merge/pull, push [one|both branches]} executed by two users (user switches with p=0.4 per step) on two clones of one bare remote against one fake LFS server; paths: lockable LFS (*.dat), lockable non-LFS (*.txt), non-lockable LFS (*.bin), plain, plus lockable files that exist on one branch only (only-main.dat/.txt, only-side.dat) and files removed from the work tree without committing (rm), so that lock/unlock (by path, --id, --force) also hit files ABSENT from the work tree, followed by the checkout/merge that brings them back; coordinates per case: listing-fault (3 of 40 cases, paginated server, locksverify true for both: a scripted push whose 2nd locks/verify request - a later page, or the listing for the second of two pushed refs - is answered 404/501 after an earlier answer carried the foreign lock); independently every push with verification not false gets with p=0.25 a 404/501/403/500 on its 1st, 2nd or 3rd locks/verify request; second-clone (3 of 40 cases: a second clone of one user, same server identity, own work tree and lock cache; locks taken in one clone, unlock --id / unlock <path> / locks --verify issued from the other; the expected cache is kept per CLONE: a clone only knows what its own commands were told); every case may also `lose the lock cache` (rm .git/lfs/lockcache.db [+ lfs/cache/locks]) between commands, which resets that clone's expected cache to empty; dense (4 of 40 cases: 10-40 extra lockable files; the other user rewrites many of them and pushes, this user removes one or two others from the work tree WITHOUT committing, then pull/merge and `git checkout HEAD -- <files>` run the repository-scanning hooks while tracked lockable files are missing; every lockable file the command rewrote is judged, trigger hook-with-missing-lockable-file); flavor {overlap (1 case in 8: after a few ordinary commands two git-lfs processes of the same user overlap deterministically in one clone — the server hook computes/applies the request of process A, holds its response, process B runs to completion, A is released — in the shapes verify+lock, lock+verify, unlock+verify, lock+lock|unlock; expected cache = both effects = server's own-lock table), plain, verify5xx (one 5xx on a verifiable listing = the single known trigger), verify-unimpl (404/501 on locks/verify), locks-unimpl (404/501 on every lock endpoint), odd-path (two extra lockable files whose name contains a space, a double quote, non-ASCII letters or a tab), subdir-cwd (lock/unlock of sub/… issued from inside sub/), dup-content (edits may copy another file's content)}; in every 4th case the pushes run the race-instrumented binary and data-race reports touching commands.lockVerifier count as violations x locksverify(alice,bob) in {unset,true,false} via lfs.<url>.locksverify or lfs.locksverify x lfs.setlockablereadonly {unset,true,false} x server page size {0,1,2}; other answers arise from the sequence (409 on a held path, 403 on a foreign unlock, 404 on a stale id) or from scripted 500/502/503 on lock create/delete/list. Class = (flavor, locksverify pair, readonly on/off, page size, length bucket). Oracles after every command: push verdict, write bits of the files whose flags the command fixes, `locks --local --json` (ids and paths) of the acting user == sequence-defined expected cache (the other user's cache is compared at every change of the acting user and at the end of the sequence), `locks [--verify] --cached --json` == last unambiguous remote listing, unlock guard, no Go panic; in verify5xx cases the fault hits either the first verify request or (paginated server) every page after the first."
 	run.Assumptions = []string{
 		"ownership ground truth = lock table of the fake server; commands of the two users never overlap in time",
 		"expected cache of a user: + lock granted (201), - unlock confirmed (200), replaced by the server's ours list at every successful UNLIMITED `git lfs locks --verify`; a listing cut off by --limit (N <= number of locks) or refused because of a filter leaves the expectation unchanged, a limited listing whose limit was not reached may or may not replace it; after a push whose verify requests all succeeded both the unchanged and the replaced set are accepted (the statement does not say that a push refreshes the cache)",
 		"write bits are judged only for files that git check-attr reports lockable, with lfs.setlockablereadonly not false, right after lock f / unlock f / a checkout, commit or merge whose changed-file set (git diff-tree between the old and new HEAD, or the restored files) contains f",
-		"push verdict: judged for locksverify=true only; touched paths = per new commit (rev-list local --not every remote ref) the paths that differ from every parent, deletions excluded; a whole-push rejection (exit != 0, no remote ref changed) and acceptance are demanded only when every updated ref is a fast-forward (Git drops non-fast-forward refs before the pre-push hook runs; then only 'no ref whose own new commits touch a foreign-locked path was updated' is demanded); acceptance additionally needs a push without injected fault; locksverify unset (warning only) and 404/501 answers to verify are counted, not judged",
+		"push verdict: judged for locksverify=true only; touched paths = per new commit (rev-list local --not every remote ref) the paths that differ from every parent, deletions excluded; a whole-push rejection (exit != 0, no remote ref changed) and acceptance are demanded only when every updated ref is a fast-forward (Git drops non-fast-forward refs before the pre-push hook runs; then only 'no ref whose own new commits touch a foreign-locked path was updated' is demanded); acceptance additionally needs a push without injected fault; locksverify unset (warning only) is counted, not judged; a 404/501 answer to a verify request of the push: nothing is demanded for locks the client never saw, but a ref whose new commits touch a path whose foreign lock was carried by an earlier SUCCESSFUL locks/verify answer of the same push (page or ref listing) must not be updated",
 		"a lock granted on a path removes older expected entries for that path (the server holds one lock per path, so the grant tells the client the older lock is gone)",
 		"unlock guard: 'uncommitted changes' = edited by the driver since the last commit/restore and reported by git status",
 		"git 2.39.5",
